@@ -1,0 +1,8 @@
+//go:build !verif
+
+// Package verifhook provides schedule-control points for the external verification
+// harness. Without the "verif" build tag every call is an empty inlinable function.
+package verifhook
+
+// At marks an instrumented point. It does nothing unless built with the verif tag.
+func At(point string, obj any) {}
